@@ -13,7 +13,7 @@ from ..common import Check, Mismatch
 
 PROPERTY = "C07"
 RULE = ("programs over broadcast(M0>M1>M2, N) / delay{..} (optionally left by an exception) / ignore(T){..} / subscribe / "
-        "unsubscribe / unsubscribe_all with three listeners, bound-method and plain-function handlers, filters, priorities and "
+        "unsubscribe / unsubscribe_all with three listeners, bound-method and plain-function handlers, filters (lambdas, bound methods of the listener and of a separate stateful gate object), priorities and "
         "handler scripts that re-enter the hub (depth<=3); (i) exhaustive over flat token programs of bounded length x handler-script "
         "variants, (ii) Hypothesis-generated nested programs. Oracle: independent hub simulator; full delivery logs must be equal. "
         "Non-trivial = nested delay blocks, or an invoked handler whose script re-enters the hub, or a subscription change between "
@@ -119,6 +119,10 @@ def accept(filt, tag):
         return tag % 2 == 0
     if filt == "none":
         return False
+    if filt == "even-gate":      # bound method of a separate gate object (state: parity 0)
+        return tag % 2 == 0
+    if filt == "odd-self":       # bound method of the listener itself (state: parity 1)
+        return tag % 2 == 1
     raise ValueError(filt)
 
 
@@ -148,7 +152,13 @@ class RealHub:
         def notify(self_, msg):
             interp.on_call(self_.name, "notify", rev[type(msg)], msg.tag[0], msg.tag[1])
         ns["notify"] = notify
+
+        def accepts(self_, msg):
+            return msg.tag[0] % 2 == self_.parity
+        ns["accepts"] = accepts
+        ns["parity"] = 1
         L = type("L", (HubListener,), ns)
+        self.gate = type("Gate", (object,), {"accepts": accepts, "parity": 0})()   # kept alive here: the hub holds it weakly
         self.listeners = {}
         for name in LISTENERS:
             l = L()
@@ -174,7 +184,11 @@ class RealHub:
         else:
             handler = self._func(l, hid)
         kw = {}
-        if filt != "all":
+        if filt == "even-gate":
+            kw["filter"] = self.gate.accepts
+        elif filt == "odd-self":
+            kw["filter"] = lo.accepts
+        elif filt != "all":
             kw["filter"] = (lambda m: m.tag[0] % 2 == 0) if filt == "even" else (lambda m: False)
         self.hub.subscribe(lo, self.msgcls[cls], handler=handler, priority=prio, **kw)
 
@@ -374,7 +388,7 @@ def action_strategy(in_handler):
         st.tuples(st.just("bc"), cls, st.integers(0, 3)),
         st.tuples(st.just("bc"), cls, st.integers(0, 3)),
         st.tuples(st.just("sub"), lst, cls, hid, st.sampled_from(["m", "f"]),
-                  st.sampled_from(["all", "all", "even", "none"]), st.integers(0, 3)),
+                  st.sampled_from(["all", "all", "even", "none", "even-gate", "odd-self"]), st.integers(0, 3)),
         st.tuples(st.just("unsub"), lst, cls),
         st.tuples(st.just("unsuball"), lst),
     )
@@ -404,7 +418,7 @@ def programs(draw):
     setup = []
     for _ in range(nsub):
         setup.append(["sub", draw(st.sampled_from(LISTENERS)), draw(st.sampled_from(CLASSES)), draw(st.integers(0, 3)),
-                      draw(st.sampled_from(["m", "f"])), draw(st.sampled_from(["all", "all", "all", "even", "none"])),
+                      draw(st.sampled_from(["m", "f"])), draw(st.sampled_from(["all", "all", "all", "even", "none", "even-gate", "odd-self"])),
                       draw(st.integers(0, 3))])
     prog = draw(st.lists(action_strategy(False), min_size=1, max_size=8))
     return {"handlers": tolist(handlers), "setup": setup, "prog": tolist(prog)}
